@@ -241,6 +241,26 @@ def r3_class_checked_release(ctx):
             ctx.ok("dealloc|contains-checked", pd.where(c.block), "Pool::dealloc only when pools[class].contains(ptr)")
         else:
             ctx.bad("dealloc|contains-checked", pd.where(c.block), "a buffer is released into a pool without `pools[class].contains(ptr)` on the same class: an arena-fallback buffer would enter the free list")
+    # what is taken under a condition is given back under the same condition: besides "the class exists" (both) and "the
+    # pointer lies in that class" (release), no test on the request decides whether the per-class routine is reached
+    for fid, callee, allowed in ((P + "PoolSet::alloc", P + "Pool::alloc", ("discr(size_class(size))",)),
+                                 (P + "PoolSet::dealloc", P + "Pool::dealloc", ("discr(size_class(size))", "contains(self.pools[size_class(size)@Some.0],"))):
+        fn = ctx.need(fid)
+        for c in fn.calls_to(callee):
+            extra = []
+            for S, al in fn.constraints(c.block):
+                si = fn.switch_info(S)
+                if si["kind"] not in ("discr", "call", "bin", "multi", "place", "un"):
+                    continue
+                d = sh(ne(fn.deep(fn.blocks[S]["t"]["d"]))).replace(" ", "")
+                if any(d.startswith(a.replace(" ", "")) for a in allowed):
+                    continue
+                extra.append(d[:50])
+            key = "%s|reaches-class-routine" % fid.split("::")[-1]
+            if extra:
+                ctx.bad(key + "|extra-guard|%s" % extra[0][:30], fn.where(c.block), "%s reaches %s only under the additional test `%s`, which its counterpart does not make: a buffer for which the test fails is taken from a class but never returned to it (or returned without having been taken), so the class drains while nothing is live" % (fid.split("::")[-1], callee.split("::")[-1], extra[0]))
+            else:
+                ctx.ok(key, fn.where(c.block), "reached exactly when the class exists%s" % (" and owns the pointer" if "dealloc" in fid else ""))
     pa = ctx.need(P + "PoolSet::alloc")
     fall = [c for c in pa.calls() if (c.callee or "").endswith("Allocator>::allocate")]
     for c in fall:
@@ -340,6 +360,9 @@ EXPLANATION = (
     "allocation, PoolSet crate-private, ownership test is a half-open range test over every pool. Not decided: exclusivity of "
     "live buffers over every history (follows from R2 plus LIFO reasoning, not checked), size_class values beyond the agreement "
     "of its constants with the table."
+)
+EXPLANATION += (
+    " Added after a seeded change was missed: R3 PoolSet::alloc reaches Pool::alloc exactly when the class exists and PoolSet::dealloc reaches Pool::dealloc exactly when the class exists and owns the pointer - no further test on the request on either side (what is taken under a condition is given back under the same condition)."
 )
 ASSUMPTIONS = ["strings stored in slots are never grown in place (capacity stays equal to the allocated length)"]
 TRUSTED = ["rustc const-eval of the tables", "nsx exporter", "nsverif path enumeration"]
